@@ -366,7 +366,9 @@ def s7(ctx):
             for i in range(1, b.arg_count + 1):
                 if 'Duration' in b.locals[i]['ty'] and dl is not None and contains(dl, ('param', i)):
                     dur_ok = True
-            if not ok or not dur_ok:
+            # (a `*_deadline(.., deadline: Instant)` variant: the caller's instant IS the deadline)
+            given = any(b.locals[i]['ty'] == 'std::time::Instant' and dl == ('param', i) for i in range(1, b.arg_count + 1))
+            if not given and (not ok or not dur_ok):
                 ctx.violate(b.key, p, 'wait_timeout deadline is not Instant::now()+duration evaluated before registration: %s' % fmt(dl), at=w.at)
         # an unbounded wait after the timed wait is allowed only once the cancel attempt (under the blocking lock)
         # has FAILED, i.e. a peer owns the waiter and will finish shortly; otherwise the deadline is ignored
@@ -535,6 +537,50 @@ def nonblocking_bodies(ctx):
     return out
 
 
+PROGRESS_EV = ('Q.push_back', 'SIGSEND', 'SIGRECV', 'Q.drain_all', 'WL.drain_senders')
+
+
+def batch_loop_ok(ctx, b):
+    """a `try_*` method that is a batch of the single non-blocking operations (`while out.len() < n { match self.try_recv()? {
+    Some(v) => out.push(v), None => break } }`): every cycle of the body runs one of the non-blocking public operations, and on
+    no path (two rounds unrolled) is a round that moved nothing followed by another round - i.e. the loop goes on only while
+    values keep moving, it never retries (= waits for a peer)."""
+    for comp in b.sccs():
+        if not (len(comp) > 1 or comp[0] in b.succs(comp[0])):
+            continue
+        ok = False
+        for bi in comp:
+            t = b.blocks[bi]['term']
+            if t['k'] == 'call' and t.get('fn') and t['fn'].get('local'):
+                n = t['fn'].get('name', '')
+                if n.startswith('try_') or n == 'drain_into':
+                    ok = True
+        if not ok:
+            return False
+    ps = b.paths(2)
+    if not ps:
+        return False
+    for p in ps:
+        evs = ctx.sem(p)
+        secs = []
+        cur = None
+        for e in evs:
+            if e.name in ('LOCK', 'TRYLOCK', 'TRYLOCK_CALL'):
+                if e.name == 'TRYLOCK' and cur is not None and cur and cur[-1].name == 'TRYLOCK_CALL':
+                    cur.append(e)
+                    continue
+                cur = [e]
+                secs.append(cur)
+            elif cur is not None:
+                cur.append(e)
+        for sec in secs[:-1]:
+            moved = any(e.name in PROGRESS_EV for e in sec) or any(
+                e.name == 'BR' and e.data['label'] == 'pop' and e.data['outcome'] == 'Some' for e in sec)
+            if not moved:
+                return False
+    return True
+
+
 @rule('S9', ['C14', 'C19'], 'non-blocking operations never reach a wait, the wait list registration, or (realtime) the blocking lock')
 def s9(ctx):
     exp = 12 if ctx.has_async() else 6
@@ -548,7 +594,7 @@ def s9(ctx):
         tc = transitive_callees(ctx.facts, b, stop=stop)
         for f in sorted(FORBIDDEN_BLOCKING & set(tc)):
             ctx.violate(b.key, None, 'non-blocking operation can reach %s via %s' % (f, ' -> '.join(tc[f])), sig=f)
-        if nm != 'drain_into' and b.has_cycle():
+        if nm != 'drain_into' and b.has_cycle() and not batch_loop_ok(ctx, b):
             ctx.violate(b.key, None, 'non-blocking operation contains a loop', sig='cycle')
         # every crate-local body it can reach is loop-free as well (bounded number of steps), except the scans over the
         # wait list, which are bounded by its length
